@@ -5,7 +5,7 @@ import json, subprocess
 CLAIMED = {
  "C01": dict(
    text="Bounded model checking of the real Marshal/Unmarshal code: for each of 61 catalogue types (every codec kind in every position: scalars of every width, flat/intern/proto tags, pointers, packed/fixed/counted slices, pointer slices, nested and recursive structs, maps with string/int/struct keys and pointer/struct/slice values, time, null.*, named types, multi-byte tags, zero-sized fields, instantiated generic structs, the flat option on slices, top-level non-struct values) a value whose integers, floats (bit patterns), string bytes and time fields are unrestricted solver symbols and whose shapes (nil / empty / populated, lengths up to the bound) are enumerated is marshalled and unmarshalled by the symbolically executed library; round-trip equality up to the documented normalisations is one solver query per path (unsat = holds for every value of that shape). Default and proto-compatible configurations (both switches; each switch alone for types sensitive to both). Size-boundary harnesses with concrete shape and symbolic content cross the 1/2/3-byte length-prefix boundaries (bodies of 125..129 and 16381..16385 bytes, map entries of 126..128 and 16382..16384 bytes, slices of 7..33 elements).",
-   note="Bounds: string/[]byte length <=1 (quick) / <=2 (thorough), slice length <=1/2, map entries <=1/2, struct nesting depth 2/3; all scalar values unrestricted. Thorough tier: per top-level field one variant with that field at the larger bounds; a variant needing more than 40000 paths or 2 minutes is not claimed at those bounds (listed under coverage.bounds_reduced) and the harness is then explored completely at the quick bounds. Types outside the catalogue (incl. types built with reflect.StructOf) and larger sizes are outside the claim. reflect is modelled from go/types; codec construction runs inside the engine on that model.",
+   note="Bounds: string/[]byte length <=1 (quick) / <=2 (thorough), slice length <=1/2, map entries <=1/2, struct nesting depth 2/3; all scalar values unrestricted. Thorough tier: per top-level field one variant with that field at the larger bounds; a variant needing more than 200000 paths or 2 minutes is not claimed at those bounds (listed under coverage.bounds_reduced) and the harness is then explored completely at the quick bounds. Types outside the catalogue (incl. types built with reflect.StructOf) and larger sizes are outside the claim. reflect is modelled from go/types; codec construction runs inside the engine on that model.",
    design="DESIGN.md §4 C01"),
  "C02": dict(
    text="Differential bounded model checking against an independent definition of the wire format: a reference encoder generated from the catalogue's static types implements README.md / wire.go / the golden files (tags, zig-zag vs plain varints, fixed widths, length prefixes, packed vs counted slices, map entries as key=1/value=2, omission rules, declaration order) without calling plenc; for every catalogue type and every value within the bounds the solver decides impl_bytes == ref_bytes (for some rotation of map entry order). Decode side: the reference encoding with the top-level fields in every order (all permutations up to 3 fields) must unmarshal to the value.",
@@ -60,8 +60,8 @@ CLAIMED = {
    note="Numbers and times take boundary values (MinInt64..MaxUint64, +-0, 1e21, 5e-324, MaxFloat64, float32 analogues); strconv/time formatting is executed from its SSA on those concrete values. Non-finite floats and Raw() are outside the claim.",
    design="DESIGN.md §4 C15"),
  "C16": dict(
-   text="Bounded model checking of the JSON-any codecs: value trees over the 8 dynamic kinds (nil, bool, int, float64 bits, string, json.Number, []any, map[string]any; depth <=1 quick / <=2 thorough, width <=2/3, empty keys/strings/containers included) with symbolic scalar payloads round-trip at top level, as struct fields between integers and as unknown fields being skipped; the codec laws (C05) hold for JSONMapCodec/JSONArrayCodec; the Descriptor walk yields the value's events (recording Outputter); decoding arbitrary bytes into JSON-any targets is checked under C04.",
-   note="Integers restricted to one-byte varints in the quick tier (full width thorough). Descriptor-walk harnesses use at most one member per object (member order is the encoder's map iteration order).",
+   text="Bounded model checking of the JSON-any codecs: value trees over the 8 dynamic kinds (nil, bool, int, float64 bits, string, json.Number, []any, map[string]any; containers nested 2 deep quick / 3 deep thorough below the top-level one, each holding nil / empty / one element; intermediate fallback of the thorough tier: two elements in the top-level container; empty keys/strings/containers included) with symbolic scalar payloads round-trip at top level, as struct fields between integers and as unknown fields being skipped; the codec laws (C05) hold for JSONMapCodec/JSONArrayCodec; the Descriptor walk yields the value's events (recording Outputter); decoding arbitrary bytes into JSON-any targets is checked under C04.",
+   note="Integers restricted to one-byte varints in the quick tier (full width in the thorough tier's main bounds). Descriptor-walk harnesses use at most one member per object (member order is the encoder's map iteration order).",
    design="DESIGN.md §4 C16"),
  "C17": dict(
    text="Bounded model checking of registration scoping with a marker codec defined in the harness: for symbolic values, an instance with the marker registered for a type (and under a tag name for another) must use it as value, struct field, pointer target, slice element, map key and map value (bytes compared with a reference containing the marker at exactly those positions), while a plain instance and the package-level default encode the same values with the kind codecs, reject the unknown tag option, are byte-identical to each other and stay unchanged when a third instance with other options/registrations is created between uses; sync.Map is modelled per object, so a shared registry makes the marker visible where it must not be. Registrations on the package default (also under a tag name, also for a basic kind) stay invisible to other instances; a constructed type (named int, []string) under two different tag options in one struct build gets the codec of each (type, option) pair, in both field orders and nested.",
